@@ -164,7 +164,9 @@ def c09_run(inp):
     for k, v in (inp.get("hc") or {}).items():
         if v is not None:
             m[k] = v
-    sets = [m, base, dict(base, mpd_lim=0.05), dict(base, mpc_lim=0.95, conj=False), dict(base, xi_max=0.015)]
+    sets = [m, base, dict(base, mpd_lim=0.05), dict(base, mpc_lim=0.95, conj=False), dict(base, xi_max=0.015),
+            dict(base, mpc_lim=0.95, mpd_lim=0.6, cov_max=5e-3), dict(base, mpc_lim=0.99, mpd_lim=1.5, cov_max=10.0),
+            dict(base, mpc_lim=0.0, mpd_lim=0.02, cov_max=10.0), dict(base, xi_max=0.012, mpc_lim=0.0, mpd_lim=1.5, cov_max=10.0)]
     found = []
     tried = 0
     for hc in sets:
@@ -268,9 +270,19 @@ def c10_run(inp):
                 n_rows, n_cols = ordmax, ordmax + 1
                 T = crafted_tables(n_rows, n_cols, 3, seed)
                 orig = assi.ssi.SSI_poles
-                assi.ssi.SSI_poles = lambda *a, **k: (T[0].copy(), T[1].copy(), T[2].copy(), T[3].copy(), None, None, None)
+                with_cov = seed == 2
+                if with_cov:
+                    # covariance tables: some retained poles exceed the threshold and are rejected by the covariance criterion
+                    rc = np.random.RandomState(seed + ordmax)
+                    Fc = np.where(np.isnan(T[0]), np.nan, rc.choice([0.001, 0.5], size=T[0].shape, p=[0.7, 0.3]))
+                    cov = (Fc, np.where(np.isnan(T[0]), np.nan, 0.001), np.where(np.isnan(T[2].real), np.nan, 0.001))
+                    assi.ssi.SSI_poles = lambda *a, **k: (T[0].copy(), T[1].copy(), T[2].copy(), T[3].copy(), cov[0].copy(), cov[1].copy(), cov[2].copy())
+                    hc_run = dict(hc, cov_max=0.05)
+                else:
+                    assi.ssi.SSI_poles = lambda *a, **k: (T[0].copy(), T[1].copy(), T[2].copy(), T[3].copy(), None, None, None)
+                    hc_run = hc
                 try:
-                    algo = getattr(assi, "SSIcov")(name="a", br=6, ordmax=ordmax, ordmin=ordmin, step=1, hc=hc, sc=sc)
+                    algo = getattr(assi, "SSIcov")(name="a", br=6, ordmax=ordmax, ordmin=ordmin, step=1, hc=hc_run, sc=sc)
                     st = SingleSetup(y, fs=fs)
                     st.add_algorithms(algo)
                     res = algo.run()
@@ -971,7 +983,29 @@ def c06_fdd(inp):
             want = v / v[np.argmax(np.abs(v))]
             if not np.allclose(Phi[:, j], want, atol=1e-12):
                 return {"reproduced": True, "detail": "FDD_mpe: shape is not the stored first singular vector at the picked line, unity-normalised"}
-    return {"reproduced": False, "detail": "SD_svalsvec is a faithful per-line decomposition on 60 matrices; FDD_mpe picks the dominant in-band line on 300 random spectra"}
+    # EFDD / FSDD first stage: what EFDD_mpe hands to FDD_mpe (spy on the real call)
+    seen = {}
+    real = fdd.FDD_mpe
+
+    def spy(*a, **k):
+        seen["args"], seen["kw"] = a, k
+        raise RuntimeError("stop after the first stage")
+    y, fs = rng_data(6, n=2000, nch=3)
+    freq, Sy = fdd.SD_est(y.T, y.T, 1 / fs, 256, method="per")
+    fdd.FDD_mpe = spy
+    try:
+        for DF1 in (0.1, 0.55, 1.7):
+            seen.clear()
+            try:
+                fdd.EFDD_mpe(Sy, freq, 1 / fs, [3.1, 7.7], "per", method="FSDD", DF1=DF1, DF2=1.0)
+            except RuntimeError:
+                pass
+            got = seen.get("kw", {}).get("DF", seen["args"][4] if len(seen.get("args", ())) > 4 else 0.1) if seen else None
+            if got is None or abs(float(got) - DF1) > 1e-12:
+                return {"reproduced": True, "detail": f"EFDD_mpe(DF1={DF1}) runs its first stage (FDD_mpe) with the band DF={got}"}
+    finally:
+        fdd.FDD_mpe = real
+    return {"reproduced": False, "detail": "SD_svalsvec is a faithful per-line decomposition on 60 matrices; FDD_mpe picks the dominant in-band line on 300 random spectra; EFDD_mpe forwards DF1"}
 
 
 # ----------------------------------------------------------------------------------
